@@ -169,3 +169,18 @@ def check(repo: Repo, rep: Report) -> None:
     ok = kind == "slice" and val[:3] == (1, 2, 3)
     rep.ob("S3-getitem-int", gi, "slice form forwards (start, stop, step)", ok,
            "source[a:b:c] does not forward (a, b, c) to slice_ in that order")
+    # ... for every sign class of the bounds: __getitem__ itself decides nothing about a slice key (slice_ is the one place that does,
+    # and S2 evaluates it); a shortcut taken here for "obviously empty" bounds is a second, unchecked slicing semantics
+    badk = None
+    nk = 0
+    for a_ in (None, -3, -1, 0, 1, 3):
+        for b_ in (None, -3, -1, 0, 1, 3):
+            for c_ in (None, 1, 2):
+                nk += 1
+                try:
+                    kind, val = S.run_getitem(gi, S.SliceObj(a_, b_, c_))
+                except Exception as e_:  # noqa: BLE001
+                    kind, val = f"interpreter: {type(e_).__name__}: {e_}", ()
+                if not (kind == "slice" and tuple(val[:3]) == (a_, b_, c_)) and badk is None:
+                    badk = f"source[{a_}:{b_}:{c_}] is not handed to slice_ as ({a_}, {b_}, {c_}) (got {kind} {tuple(val[:3]) if val else ''})"
+    rep.ob("S3-getitem-int", gi, f"slice keys are forwarded untouched for {nk} combinations of bound signs", badk is None, badk or "")
